@@ -139,6 +139,39 @@ func runC10(c *Ctx) {
 				fmt.Sprintf("crypto type %d: spec length accepted=%v, other length accepted=%v, known in spec=%v, same verdict at every key position=%v", code, good, bad, want, indep))
 		}
 	}
+	// EncryptedLeaseSet: the blinded key's length is the table's for sig_type, whatever the
+	// transient key type of an offline block (every known pair, with and without offline keys)
+	var elsParser *Parser
+	for i := range parsers {
+		if parsers[i].Name == "ReadEncryptedLeaseSet" {
+			elsParser = &parsers[i]
+		}
+	}
+	known := []int{0, 1, 2, 3, 4, 5, 6, 7, 8, 11}
+	for _, bt := range known {
+		for _, tt := range append([]int{-1}, known...) {
+			for _, delta := range []int{0, 1, -1} {
+				e := EncLSV{SigType: bt, Key: r.Bytes(specSigPubLen[bt] + delta), Published: uint32(r.U64()), Expires: 1 + uint16(r.U64()%65535), Inner: r.Bytes(61 + r.Intn(40))}
+				fl := specSigLen[bt]
+				if tt >= 0 {
+					e.Offline = &Offline{Expires: 4000000000, SigType: tt, Key: r.Bytes(specSigPubLen[tt]), Sig: r.Bytes(specSigLen[bt])}
+					e.Flags = 1
+					fl = specSigLen[tt]
+				}
+				e.Sig = r.Bytes(fl)
+				w := e.Encode()
+				res := runParser(c, elsParser, w, nil)
+				if delta == 0 {
+					c.Check("leaseset_key_validation_agrees", res.OK && len(res.Rem) == 0, "ReadEncryptedLeaseSet blinded key size", [][]byte{w}, "",
+						fmt.Sprintf("blinded type %d (key %d bytes, the table's length), transient type %d: rejected", bt, len(e.Key), tt))
+				} else {
+					// a key one byte off shifts every later field: the structure must not be accepted as complete
+					c.Check("leaseset_key_validation_agrees", !(res.OK && len(res.Rem) == 0), "ReadEncryptedLeaseSet blinded key size", [][]byte{w}, "",
+						fmt.Sprintf("blinded type %d with a %d-byte key accepted as a complete structure", bt, len(e.Key)))
+				}
+			}
+		}
+	}
 	// the 384-byte block for every supported pair, arbitrary key / padding / certificate bytes
 	for _, s := range libSigSupported {
 		for _, cr := range libCryptoSupported {
